@@ -439,13 +439,15 @@ abbrev canonWhole (d d' : T2Data) : T2Data :=
     continuation that begins with a keyword line, returns its canonical value and leaves the continuation; PARAM
     hands the keyword line it read ahead back to the loop; ENDCY/ENDFI stops it).
     `_partial`: the object's sections are restricted to the kinds in `wholeKinds` (ROCKS PARAM MOMOP START NOVER
-    ELEME CONNE GENER LINEQ SOLVR RPCAP TIMES SELEC INCON INDOM MULTI DIFFU FOFT GOFT COFT — decidable, `hkinds`), to the TOUGH2 flavour without SIMUL (`hsim`), the mesh in the file
+    ELEME CONNE GENER LINEQ SOLVR RPCAP TIMES SELEC INCON INDOM MULTI DIFFU FOFT GOFT COFT MESHM SHORT, i.e. all but SIMUL —
+    decidable, `hkinds`), to the TOUGH2 flavour without SIMUL (`hsim`), the mesh in the file
     (`hcfg`) and no extra-precision companion (`hxp`).  `hgood` collects the side conditions of the per-section
     theorems, each on the reader's object at the moment the section is met (so blocks are resolved against the
     rock types *read*, connections against the blocks *read*).  COFT only while the reader has no
-    grid yet (its section theorem is for names, not resolved connections).  Missing: SIMUL (AUTOUGH2 objects), MESHM
-    (its keyword line is `MESHMAKER`, not the five-letter keyword), SHORT; the binary and extra-precision
-    auxiliary files. -/
+    grid yet (its section theorem is for names, not resolved connections).  MESHM (keyword line `MESHMAKER`) and
+    SHORT (header line `SHORT` + frequency, which its reader parses — raw, or padded when PARAM read it ahead) are
+    included: SHORT's names are resolved against the blocks / connections / generators *read* before it.
+    Missing: SIMUL (AUTOUGH2 objects); the binary and extra-precision auxiliary files. -/
 theorem read_write_whole_partial (d : T2Data) (cfg : WriteCfg) (d' : T2Data) (f : Files) (hw : d.write cfg = .ok (d', f))
     (hsim : d.simulator = []) (hxp : d.extraPrecision = []) (hcfg : cfg.mesh = .infile) (hend : IsEnd d.endKeyword)
     (hkinds : d'.sections.all (wholeKinds.contains ·) = true)
@@ -740,6 +742,44 @@ theorem exWhole_good : GoodFrom (stepCanon exWhole.updateSections) (GoodStep exW
         rfl
       subst this
       decide +kernel
+
+-- a whole object with a MESHMAKER section (RZ2D, XYZ and MINC entries; its keyword line is `MESHMAKER`) and a SHORT
+-- section (frequency 5 and a block list resolved against the block read from ELEME)
+def exShort2 : Short := { frequency := some (.int 5), block := some [c!"abc05"], connection := none, generator := none }
+def exWhole2 : T2Data := { exWhole with meshmaker := exMesh, short := exShort2 }
+example : ∃ f, exWhole2.write exCfg = .ok (exWhole2.updateSections, f) := by
+  refine ⟨(match exWhole2.write exCfg with | .ok x => x.2 | .error _ => ⟨[], none, none⟩), ?_⟩
+  decide +kernel
+example : exWhole2.updateSections.sections =
+      [c!"ROCKS", c!"PARAM", c!"MOMOP", c!"START", c!"ELEME", c!"CONNE", c!"MESHM", c!"SHORT"] ∧
+    exWhole2.updateSections.sections.all (wholeKinds.contains ·) = true := by
+  refine ⟨by decide +kernel, by decide +kernel⟩
+-- the two new side conditions on that object: MESHM when it is met, SHORT on the reader's grid when it is met
+example (d0 : T2Data) : GoodStep exWhole2.updateSections c!"MESHM" d0 := by
+  refine ⟨by decide +kernel, ?_, (match exMesh.mapM (writeMeshEntry mainTabs) with | .ok l => l | .error _ => []), by decide +kernel⟩
+  intro m hm
+  have hm' : m ∈ exMesh := hm
+  simp only [exMesh, List.mem_cons, List.not_mem_nil, or_false] at hm'
+  rcases hm' with rfl | rfl | rfl
+  · exact ⟨by simp only [GoodRZSub]; decide +kernel, by simp only [GoodRZSub]; decide +kernel, trivial⟩
+  · intro s hs
+    simp only [List.mem_cons, List.not_mem_nil, or_false] at hs
+    rcases hs with rfl | rfl
+    · exact ⟨⟨_, rfl, by decide +kernel, by decide, by decide +kernel⟩, ⟨3, rfl, by decide +kernel⟩, by decide +kernel, by decide +kernel⟩
+    · exact ⟨⟨_, rfl, by decide +kernel, by decide, by decide +kernel⟩, ⟨9, rfl, by decide +kernel⟩, by decide +kernel, by decide +kernel⟩
+  · exact ⟨⟨_, _, _, _, _, rfl, by decide, by decide⟩, Or.inl rfl, ⟨_, rfl, by decide +kernel, by decide⟩, by decide, by decide +kernel⟩
+example : GoodStep exWhole2.updateSections c!"SHORT"
+    (canonFrom (stepCanon exWhole2.updateSections) [c!"ROCKS", c!"PARAM", c!"MOMOP", c!"START", c!"ELEME", c!"CONNE", c!"MESHM"]
+      (startObj exWhole2)) := by
+  refine ⟨rfl, ⟨[' ', '5'], by decide +kernel, Or.inr rfl⟩, ?_⟩
+  intro g hg
+  have hg' : g ∈ [ShortGrp.blk [c!"abc05"]] := hg
+  simp only [List.mem_cons, List.not_mem_nil, or_false] at hg'
+  subst hg'
+  intro n hn
+  simp only [List.mem_cons, List.not_mem_nil, or_false] at hn
+  subst hn
+  exact ⟨⟨rfl, by decide +kernel⟩, by unfold NotSubKw; decide +kernel, by decide +kernel⟩
 
 -- the same object written with an ASCII MESH file: the main file keeps ROCKS PARAM MOMOP START, the block goes to MESH
 example : (∃ f, exWhole.write ⟨.ascii, none, none⟩ = .ok (exWhole.updateSections, f)) ∧
